@@ -36,6 +36,11 @@ CHECKS = {
    "Generated-input search: byte contents built from line bodies and terminators are fed through the real FileExecutor (SELECT input, COUNT/ARRAY_AGG, joined-file loader, selective table) and the transcript of lines the query saw is compared with a model line splitter; total_lines is compared too; inputs of up to 6 lines are split into files in all 2^(n-1) ways. Exploration, not proof.",
    "The all-admitting table '(.*)' makes query output a transcript of presented lines; a CR before LF is accepted kept or stripped.",
    "DESIGN.md §3 C12"),
+ "C03": (True,
+   "property-based testing: differential against an independent reference evaluator (value / error / unspecified) over generated typed tables, rows and SELECT/WHERE statements",
+   "Generated-input search: typed expressions (all operators, IN, CASE, casts, EXTRACT, subscripts, README functions; ~4% ill-typed nodes) are evaluated by the real FileExecutor (JSON output) and by a reference evaluator written from the property statement and README on the rows the real extract produced; records, their order, column names and the error/no-error outcome per row are compared. Sub-cases the documents do not fix are counted as unspecified and not judged. Exploration, not proof.",
+   "Trusted base of the model: Rust std float parsing and case mapping, the regex crate, chrono calendar arithmetic; TZ=UTC; expressions rendered fully parenthesised.",
+   "DESIGN.md §3 C03, Appendix A"),
 }
 
 NOT_YET = {
